@@ -130,3 +130,11 @@ Theorem C07_source_pre_encoded_url : forall (O : oracles) (s : str),
   same_outcome (gen_pre_encoded_url O s) (pre_encoded_url O s).
 Proof. exact gen_pre_encoded_url_ok. Qed.
 Print Assumptions C07_source_pre_encoded_url.
+
+(** ... and __str__ itself (the cached properties it reads are the model's accessors, bound
+    in source order; [(port := self.explicit_port)] binds port; [port == DEFAULT_PORTS.get(scheme)]
+    is the lookup in the regenerated table): the recomposition theorems above are about
+    exactly this function. *)
+Theorem C07_source_str : forall (B : backend) (u : url), gen_str B u = url_str B u.
+Proof. exact gen_str_ok. Qed.
+Print Assumptions C07_source_str.
